@@ -21,6 +21,8 @@ RULE = (
     "on a sub-image, `toasty tile-study`), the tiles are located through the Url template of index_rel.wtml, read with numpy/PIL/astropy "
     "and reassembled in display orientation: image region exact, everything else undefined. Non-trivial: image spans >= 2 tiles or is "
     "not tile-aligned; distinct by spec."
+    ' Also: an earlier image already tiled into the directory (the new one undefined over whole tiles); one StudyTiling applied to imag'
+    'es of two modes; sub-tilings that travelled through pickle / copy; one tile whose storing fails with EDQUOT.'
 )
 ASSUMPTIONS = ["ref_study model follows the statement", "PIL/numpy/astropy readers are correct"]
 EXHAUSTIVE = {"quick": "every width 1..2049 x heights {1,255,256,257,511,512,513,1024,1025}", "thorough": "all (w,h) pairs with w,h <= 600; widths 1..4097 x boundary heights"}
